@@ -23,6 +23,13 @@ from .nn_graph import PassPlacement
 from .operation import Op
 
 
+def same_rank(shapes):
+    # np.savez stores a list of shapes as one two-dimensional integer array, which needs one rank: a shorter shape gets
+    # leading 1s (the linear layout and the byte size of the tensor do not change)
+    rank = max((len(shape) for shape in shapes), default=0)
+    return [[1] * (rank - len(shape)) + list(shape) for shape in shapes]
+
+
 def write_rawdata_output(nng, arch, filename):
     subgraphs_to_write = [sg for sg in nng.subgraphs if sg.placement == PassPlacement.Cpu]
 
@@ -70,11 +77,11 @@ def write_rawdata_output(nng, arch, filename):
                 scratch_region=scratch_region,
                 scratch_fast_shape=scratch_fast_tensor.shape,
                 scratch_fast_region=scratch_fast_region,
-                input_shape=ifm_shapes,
+                input_shape=same_rank(ifm_shapes),
                 input_elem_size=ifm_elem_sizes,
                 input_region=ifm_regions,
                 input_offset=ifm_offsets,
-                output_shape=ofm_shapes,
+                output_shape=same_rank(ofm_shapes),
                 output_elem_size=ofm_elem_sizes,
                 output_region=ofm_regions,
                 output_offset=ofm_offsets,
